@@ -34,6 +34,9 @@ TARGETS = [
     (FULL + ".__init__", ("L", "W"), dict(L="none", sigma="vec", y_cov_factor="none", y_is_mean=False, with_uncertainty=True)),
     (FULL + ".__init__", ("L", "W"), dict(L="none", sigma="scalar", y_cov_factor="mat", y_is_mean=True, with_uncertainty=True)),
     (FULL + ".__init__", ("L", "W"), dict(L="mat", sigma="scalar", y_cov_factor="mat", y_is_mean=True, with_uncertainty=True)),
+    # a supplied noise factor (the estimators pass L diag(std) after ADVI) is for the mean covariance only: with y_is_mean it
+    # must not enter the weights (seeded changes C02-1 / C01-4 / C06-4 merged the two _get_L calls)
+    (FULL + ".__init__", ("weights",), dict(L="none", sigma="scalar", y_cov_factor="mat", y_is_mean=True, with_uncertainty=True)),
     # inducing points (DTC)
     (LM + ".__init__", ("weights",), dict(sigma="scalar", y_cov_factor="none", y_is_mean=True, with_uncertainty=False)),
     (LM + ".__init__", ("weights",), dict(sigma="scalar", y_cov_factor="none", y_is_mean=False, with_uncertainty=False)),
